@@ -2332,3 +2332,52 @@ func (c *Ctx) r0155(pk *packages.Package) {
 	}
 	c.R.Floor(rule, "writes for a negated numeric literal", n, 2)
 }
+
+// R01.56: a list of a syntax node is only ever sorted with a stable sort.
+func (c *Ctx) r0156(pk *packages.Package) {
+	const rule = "R01.56"
+	c.R.Rule(rule, "the lists of a syntax node (the declarators of a var statement, the elements of a list) are in evaluation order. minifyVarDecl moves the declarators without an initialiser to the front with a comparator under which all declarators with an initialiser are equal: their order, the order in which the initialisers run, survives only because the sort is stable. In package js every sort whose operand is a field of a node type of parse/v2/js is a stable one (sort.SliceStable, sort.Stable, slices.SortStableFunc); sort.Slice is unstable above 12 elements")
+	info := pk.TypesInfo
+	n := 0
+	for _, fd := range load.FuncDecls(pk) {
+		if fd.Body == nil {
+			continue
+		}
+		ast.Inspect(fd.Body, func(z ast.Node) bool {
+			call, ok := z.(*ast.CallExpr)
+			if !ok || len(call.Args) == 0 {
+				return true
+			}
+			cn := calleeName(info, call)
+			stable := cn == "sort.SliceStable" || cn == "sort.Stable" || cn == "slices.SortStableFunc"
+			unstable := cn == "sort.Slice" || cn == "sort.Sort" || cn == "slices.SortFunc" || cn == "slices.Sort"
+			if !stable && !unstable {
+				return true
+			}
+			// the operand, through a conversion to a sort.Interface type
+			op := ast.Unparen(call.Args[0])
+			if conv, ok := op.(*ast.CallExpr); ok && len(conv.Args) == 1 {
+				if tv, ok := info.Types[conv.Fun]; ok && tv.IsType() {
+					op = ast.Unparen(conv.Args[0])
+				}
+			}
+			sel, ok := op.(*ast.SelectorExpr)
+			if !ok {
+				return true
+			}
+			t := info.TypeOf(sel.X)
+			if t == nil || !strings.HasPrefix(namedTypeName(derefType(t)), pjs+".") {
+				return true
+			}
+			nt := namedTypeName(derefType(t))
+			if strings.HasSuffix(nt, ".Scope") {
+				return true // the variables of a scope are not in evaluation order
+			}
+			n++
+			c.R.Check(stable, rule, fmt.Sprintf("js.%s/sort of %s#%d is stable", load.FuncName(fd), nospace(str(op)), n), c.pos(call), cn,
+				fmt.Sprintf("%s is sorted with %s, which does not keep equal elements in their order: with more than 12 declarators the initialisers of `var a=f(1),b=f(2),…,u,v=f(13)` run in another order", str(op), cn))
+			return true
+		})
+	}
+	c.R.Floor(rule, "sorts of node lists", n, 1)
+}
